@@ -74,7 +74,8 @@ def one_session(args):
     seed, tid, root, shape, nperturb = args
     rnd = random.Random(seed)
     wd = os.path.join(root, 'w%d' % tid)
-    case = gl.make_case(rnd, wd, shape, tmpdir_tokens_with_one_iteration=(nperturb == 0))
+    dated = gl.FAR_DATES[(tid // 3) % len(gl.FAR_DATES)] if (nperturb and tid % 3 == 0) else None
+    case = gl.make_case(rnd, wd, shape, tmpdir_tokens_with_one_iteration=(nperturb == 0), dated_first_line=dated)
     ids = {}
     events = []
     detail = {'tid': tid, 'shape': shape, 'names': case['names'], 'flags': case['flags'], 'refs': case['refs'], 'pre': case['pre'], 'script': case['script'],
@@ -140,6 +141,9 @@ def one_session(args):
     plan = ['remove', 'stream', 'edit', 'exit', 'tokenline', 'stream', 'tokenline']
     for step in range(nperturb):
         kind_ = 'tokenline' if step == 1 else plan[(tid + step) % len(plan)]
+        forced_char = dated is not None and step == 0
+        if forced_char:
+            kind_ = 'stream'
         if kind_ in ('remove', 'edit') and cwd_files:
             t = rnd.choice(cwd_files if kind_ == 'remove' else sorted(case['names']))
         elif kind_ == 'exit':
@@ -149,7 +153,7 @@ def one_session(args):
             t = cands[(tid // 2 + step) % len(cands)] if cands else 'exit'
         else:
             streams = [x for x in targets if x in ('STDOUT', 'STDERR')]
-            t = rnd.choice(streams) if streams else rnd.choice(targets)
+            t = 'STDOUT' if forced_char else (rnd.choice(streams) if streams else rnd.choice(targets))
         beh = copy.deepcopy(case['beh'])
         what = ''
         if t in case['names']:
@@ -180,7 +184,7 @@ def one_session(args):
             beh['stderr'], what = gl.edit_token_line(beh['stderr'], rnd, case['wd'])
             what = 'stderr: ' + what
         elif t == 'STDOUT':
-            beh['stdout'] = gl.edit_first_line(beh['stdout'], rnd)
+            beh['stdout'] = gl.edit_first_line(beh['stdout'], rnd, how='char' if forced_char else None)
             what = 'stdout edited'
         elif t == 'STDERR':
             beh['stderr'] = gl.edit_first_line(beh['stderr'], rnd)
